@@ -77,6 +77,10 @@ def _by_name(ps, n):
     return None
 
 
+def _corrupt(b):
+    return b["typ"] == "other" or b["def"] in ("other", "codeQ") or b["dbase"] == "other" or b["dann"] == "diff"
+
+
 def _nn(name):
     return "other" if name.startswith("other:") else name
 
@@ -99,6 +103,19 @@ def _ir_diff(a, b):
 def instances(trace, meta):
     """Mirror of the clause *structure* of ConvertTrace.tla (names only, no truth values): yields
     (step, clause, slot, feat).  Used to build signatures; TLC alone decides which instances fail."""
+    cur = trace["init"]
+    art = None
+    ref = None
+    last = {"kind": None, "dd": None, "n": 0, "irn": 0}
+    hop = 0
+    prev = "none"
+    icomps = comps_of(trace["init"])
+    for item in _instances(trace, meta):
+        item[3]["icomps"] = icomps
+        yield item
+
+
+def _instances(trace, meta):
     cur = trace["init"]
     art = None
     ref = None
@@ -232,6 +249,8 @@ def instances(trace, meta):
                     yield sl("NamePresent", "missing")
                     continue
                 yield sl("NamePresent", "present")
+                if _corrupt(s):
+                    continue
                 yield sl("TypKept", q["typ"])
                 yield sl("DefaultFill" if s["def"] == "absent" else "DefaultKept", q["def"])
                 yield sl("ProseKept.base", q["dbase"])
@@ -243,13 +262,13 @@ def instances(trace, meta):
                 return (l, cl, "return", f)
 
             yield rl("RetKept.present", a["ret"]["present"])
-            if a["ret"]["present"] and b["ret"]["present"]:
+            if a["ret"]["present"] and b["ret"]["present"] and not _corrupt(b["ret"]):
                 yield rl("RetKept.typ", a["ret"]["typ"])
                 yield rl("RetKept.def", a["ret"]["def"])
                 yield rl("RetKept.base", a["ret"]["dbase"])
                 yield rl("RetKept.stop", a["ret"]["dstop"])
                 yield rl("RetKept.ann", a["ret"]["dann"])
-            if last["kind"] == k and last["dd"] == dd and last["irn"] >= 1:
+            if last["kind"] == k and last["dd"] == dd and last["irn"] >= 2:
                 yield ev("IrStable", _ir_diff(a, b))
             if ref is not None:
                 yield ev("ConfigTransparent", _ir_diff(a, ref), comps=comps_of(trace["init"]))
@@ -309,6 +328,20 @@ def kind_opts(kind, thorough, rnd=None):
     return out
 
 
+ARG_EXPR = {"none", "str", "int", "float", "bool", "OptStr", "OptInt", "OptBool", "ListStr", "LitStr", "OptDict"}
+
+
+def argparse_domain(air):
+    """C04/C05 quantifier: restricted to what argparse can express (scalars, Optional/List/Literal of scalars, kwargs dict).
+    Descriptions with other types stay in the domain only without an explicit non-None default: they exercise the
+    documented fall-back to str."""
+    for s in air["params"]:
+        if s["typ"] not in ARG_EXPR and s["def"] not in ("absent", "none"):
+            return False
+    r = air["ret"]
+    return not r["present"] or r["typ"] in ("none", "int") or r["def"] == "absent"
+
+
 def build(prop, thorough, rnd):
     """-> list of scenarios for a property."""
     ts = D.tables(6 if thorough else 1, seed())
@@ -323,25 +356,31 @@ def build(prop, thorough, rnd):
     scs = []
 
     def add(table, air, actions, files=False):
+        if any(a[0] == "emit" and a[1] == "argparse" for a in actions) and not argparse_domain(air):
+            return
         scs.append(_sc(len(scs), table, air, actions, files))
 
     def roundtrips(kinds, view=False, files_every=0):
         cnt = 0
+
+        def acts(kind, oo):
+            return [("emit", kind, oo)] if view else [("emit", kind, oo), ("parse",)]
         for kind in kinds:
             for o in kind_opts(kind, thorough):
                 oo = dict(o, view=view)
                 for tb in (ts if thorough else (T0, T1)):
                     for air in single:
                         cnt += 1
-                        add(tb, air, [("emit", kind, oo), ("parse",)], files=bool(files_every and cnt % files_every == 0))
+                        add(tb, air, acts(kind, oo), files=bool(files_every and cnt % files_every == 0))
                 for j, air in enumerate(pair_s):
                     tb = ts[j % len(ts)]
-                    add(tb, air, [("emit", kind, oo), ("parse",)])
+                    add(tb, air, acts(kind, oo))
                 for j, air in enumerate(tri_s):
                     if (j + len(oo)) % (1 if thorough else 2) == 0:
-                        add(ts[j % len(ts)], air, [("emit", kind, oo), ("parse",)])
+                        add(ts[j % len(ts)], air, acts(kind, oo))
                 for j, air in enumerate(wide):
-                    add(ts[j % len(ts)], air, [("emit", kind, oo), ("parse",)])
+                    cnt += 1
+                    add(ts[j % len(ts)], air, acts(kind, oo), files=bool(files_every and cnt % files_every == 0))
 
     if prop == "C01":
         roundtrips(DOC)
@@ -356,7 +395,7 @@ def build(prop, thorough, rnd):
     elif prop == "C08":
         for kind in KINDS:
             for o in kind_opts(kind, thorough):
-                acts = [("emit", kind, o), ("parse",), ("emit", kind, o), ("parse",), ("emit", kind, o)]
+                acts = [("emit", kind, o), ("parse",), ("emit", kind, o), ("parse",), ("emit", kind, o), ("parse",)]
                 for tb in (ts if thorough else (T0, T1)):
                     for air in single:
                         add(tb, air, acts)
